@@ -624,6 +624,22 @@ func realListenerCases(r *run.R, d *dialer, now time.Time) {
 			}
 			time.Sleep(5 * time.Millisecond)
 		}
+		if rolled {
+			// the address the long-running listener advertises NOW (after its rollover) must verify: the
+			// server confirms, inside the handshake, the hashes it advertises at that moment
+			cur := ln1.Multiaddr()
+			ok, et := d.dial(cur, pid, 3)
+			r.Eval(1)
+			switch {
+			case ok:
+				r.Count("dial_current_address_of_rolled_listener_completed", 1)
+			case strings.Contains(et, "cert hash") || strings.Contains(et, "certhash"):
+				r.Violation("dial:rolled-listener-does-not-confirm-the-hashes-it-advertises", caseID,
+					"after a rollover, a dial with the address the listener advertises at that moment is refused: "+et, map[string]any{"address": cur.String(), "error": et})
+			default:
+				r.Count("dial_current_address_of_rolled_listener_failed_otherwise(load)", 1)
+			}
+		}
 		if rolled && len(prevAddrHashes) == 2 {
 			addr, _ := withHashes(stripHashes(ln1.Multiaddr()), prevAddrHashes)
 			ok, _ := d.dial(addr, pid, 3)
